@@ -168,6 +168,10 @@ def closure(spec, chk, name, max_states=400000, max_depth=None):
         "failing_state_queries": len(failures),
     }
     chk.cov["parts"][name] = stats
+    # actual explored histories as samples: the deepest state's representative and one of the middle
+    reps = sorted((v[0] for v in seen.values()), key=lambda h: (len(h), h))
+    for h in (reps[len(reps) // 2], reps[-1]):
+        chk.sample({"spec": name, "history": [spec.ops[i] for i in h]}, cap=24)
     chk.add("states", len(seen))
     chk.add("transitions", transitions)
     chk.add("traces_validated_against_impl", len(to_check))
@@ -225,6 +229,10 @@ def sequences(spec, chk, name, L):
         "failing_state_queries": len(failures),
     }
     chk.cov["parts"][name] = stats
+    if tasks:
+        last = tasks[-1]
+        h = tuple(last[0]) + tuple([len(spec.ops) - 1] * (last[1] - len(last[0])))
+        chk.sample({"spec": name, "history": [spec.ops[i] for i in h]}, cap=24)
     chk.add("states", len(keys))
     chk.add("transitions", total)
     chk.add("traces_validated_against_impl", total)
